@@ -488,6 +488,92 @@ def slq_elbo_failure(c, o):
         return ("slq-elbo-quadrature", "pure-SLQ trace-log of a diagonal operator (%s) is %.12g, exact log-determinant %.12g" % (tag, o["got"], o["logdet"]))
     return None
 
+
+# --------------------------------------------------------------------------------------------------
+# option combinations, both APIs
+# --------------------------------------------------------------------------------------------------
+
+def option_cases(ctx):
+    rng = ctx.rng(3405)
+    out = []
+    for (nd, ns) in ([(3, 5)] if ctx.quick else [(3, 5), (5, 3), (4, 4)]):
+        m = gen_model(rng, nd=nd, ns=ns)
+        R = np.array(m["R"])
+        for i in range(min(nd, ns)):
+            R[i, i] += (i + 1) * 1.5
+        m["R"] = R.tolist()
+        out.append({"kind": "options", "model": m})
+    return out
+
+
+def run_options(c):
+    """compute_all x verbose x n_eigenvalues (below / at / above the relevant dofs) x n_batches, nifty.re and nifty.cl"""
+    import logging
+    import tempfile
+    import nifty.cl as ift
+    m = c["model"]
+    nd, ns = np.array(m["R"]).shape
+    nrel = min(nd, ns)
+    ham, sl = _classic_objects(m)
+    rows = []
+    for ca in (False, True):
+        for vb in (False, True):
+            for n in (1, nrel, nrel + 2):
+                for nb in (1, 3):
+                    row = {"ca": ca, "vb": vb, "n": n, "nb": nb}
+                    for impl in ("jax", "classic"):
+                        with tempfile.TemporaryDirectory(dir=scratch()) as tmp:
+                            logging.disable(logging.CRITICAL)
+                            try:
+                                if impl == "jax":
+                                    o = run_elbo(m, n, outdir=tmp, compute_all=ca, verbose=vb, n_batches=nb, min_lh_eval=-1.0, metric_jit=False)
+                                    mean, low = o["stats"]["elbo_mean"], o["stats"]["lower_error"]
+                                else:
+                                    e, st = ift.estimate_evidence_lower_bound(ham, sl, n, compute_all=ca, verbose=vb, n_batches=nb,
+                                                                              min_lh_eval=-1.0, output_directory=tmp)
+                                    f = lambda x: float(np.asarray(x.asnumpy())) if hasattr(x, "asnumpy") else float(x)
+                                    mean, low = f(st["elbo_mean"]), f(st["lower_error"])
+                                fn = os.path.join(tmp, "metric_signal_eigenvalues.npy")
+                                cnt = int(np.load(fn).size) if os.path.exists(fn) else -1
+                                row[impl] = {"count": cnt, "mean": mean, "lower": low}
+                            except ValueError as e:
+                                row[impl] = {"count": None, "error": str(e)[:80]}
+                            finally:
+                                logging.disable(logging.NOTSET)
+                    rows.append(row)
+    _, _, logZ, _, _, _, _ = model_objects(m)
+    return {"rows": rows, "nrel": nrel, "logZ": logZ}
+
+
+def options_checks(c, o):
+    out = []
+    for r in o["rows"]:
+        for impl in ("jax", "classic"):
+            cnt = r[impl]["count"]
+            obs = "None" if cnt is None else "(Some %d%%nat)" % max(cnt, 0)
+            out.append(("options-%s" % impl, "neig_case %s %s %d %d %s" % (C.cbool(r["ca"]), C.cbool(r["vb"]), r["n"], o["nrel"], obs)))
+    return out
+
+
+def options_failure(c, o):
+    for r in o["rows"]:
+        tag = "compute_all=%s, verbose=%s, n_eigenvalues=%d (relevant dofs %d), n_batches=%d" % (r["ca"], r["vb"], r["n"], o["nrel"], r["nb"])
+        j, k = r["jax"], r["classic"]
+        if (j["count"] is None) != (k["count"] is None):
+            return ("elbo-options", "%s: one API raises, the other does not (nifty.re: %s, nifty.cl: %s)" % (tag, j, k))
+        if j["count"] is None:
+            if r["ca"] or r["n"] <= o["nrel"]:
+                return ("elbo-options", "%s: both APIs raise ValueError (%s)" % (tag, j.get("error")))
+            continue
+        for impl, x in (("nifty.re", j), ("nifty.cl", k)):
+            if (r["ca"] or r["n"] == o["nrel"]) and abs(x["mean"] - o["logZ"]) > 1e-8 * max(1.0, abs(o["logZ"])):
+                return ("elbo-options", "%s: %s ELBO %.12g differs from the closed-form log-evidence %.12g (%d eigenvalues entered)" % (
+                    tag, impl, x["mean"], o["logZ"], x["count"]))
+        if abs(j["mean"] - k["mean"]) > 1e-8 * max(1.0, abs(j["mean"])) or abs(j["lower"] - k["lower"]) > 1e-8 * max(1.0, abs(j["lower"])):
+            return ("elbo-options", "%s: nifty.re ELBO %.12g (lower_error %.6g) vs nifty.cl %.12g (lower_error %.6g)" % (
+                tag, j["mean"], j["lower"], k["mean"], k["lower"]))
+    return None
+
 # --------------------------------------------------------------------------------------------------
 # direct oracle
 # --------------------------------------------------------------------------------------------------
@@ -526,6 +612,8 @@ def direct_failure(c):
         return resume_failure(c, run_resume(c))
     if k == "slq_elbo":
         return slq_elbo_failure(c, run_slq_elbo(c))
+    if k == "options":
+        return options_failure(c, run_options(c))
     if k == "slq":
         return _direct_slq(c)
     if k == "elbo_full":
@@ -646,8 +734,9 @@ class C34(C.Check):
         checks, meta, dist = [], [], {}
         self.cases = []
         nontriv = set()
-        cases = [c for c in ctx.corpus() if c.get("kind") in ("lanczos", "elbo", "resume", "slq_elbo")] + lanczos_cases(ctx) + elbo_cases(ctx) + resume_cases(ctx) + slq_elbo_cases(ctx)
+        cases = [c for c in ctx.corpus() if c.get("kind") in ("lanczos", "elbo", "resume", "slq_elbo", "options")] + lanczos_cases(ctx) + elbo_cases(ctx) + resume_cases(ctx) + slq_elbo_cases(ctx) + option_cases(ctx)
         self.resume_obs = []
+        self.opt_obs = []
         self.slq_obs = []
         for c in cases:
             try:
@@ -656,6 +745,12 @@ class C34(C.Check):
                     cs = lanczos_checks(c, o)
                     nst = int(np.sum(o["beta"] > 0))
                     nontriv.add(("lanczos", len(c["v"]), c["order"], nst < c["order"]))
+                elif c["kind"] == "options":
+                    o = run_options(c)
+                    cs = options_checks(c, o)
+                    self.opt_obs.append((c, o))
+                    for r in o["rows"]:
+                        nontriv.add(("options", r["ca"], r["vb"], r["n"], r["nb"], r["jax"]["count"], r["classic"]["count"]))
                 elif c["kind"] == "slq_elbo":
                     o = run_slq_elbo(c)
                     cs = [("slq-order", "slq_order_case %d %d %d" % (o["requested"], o["op_size"], o["order_used"] if o["order_used"] is not None else 0))]
@@ -695,7 +790,7 @@ class C34(C.Check):
         self.bad_cases = [meta[i][1] for i in bad]
         res.coverage.update({
             "evaluations": len(checks), "distinct_nontrivial": len(nontriv),
-            "rule": "SPD matrices B B^T + D with small-integer entries, diagonal ones, ones with two distinct eigenvalues (early breakdown), n = 2..6, integer start vectors (also inside invariant subspaces), order 1..n: alphas, basis vectors and every residual norm against the exact model; linear Gaussian models (3-5 data, 4-6 parameters), k < all eigenvalues in 1-3 batches: ELBO samples, lower_error, batch sizes fresh and resumed; resume suite: one-go run with saved eigensystem, then a resumed run from EVERY split point 1..k-1, nifty.re in signal and data space and nifty.cl, k < all and k = all eigenvalues: eigsh batch sizes against the model's schedule, exactly; distinct = (kind, n, order, breakdown) resp. (kind, k, batches) resp. (impl, space, k, batches, split, observed sizes); pure-SLQ ELBO (n_eigenvalues = 0) on non-square and square models in both spaces with the default and an over-large order: the order handed to _slq_gauss_radau against clamp_order, exactly",
+            "rule": "SPD matrices B B^T + D with small-integer entries, diagonal ones, ones with two distinct eigenvalues (early breakdown), n = 2..6, integer start vectors (also inside invariant subspaces), order 1..n: alphas, basis vectors and every residual norm against the exact model; linear Gaussian models (3-5 data, 4-6 parameters), k < all eigenvalues in 1-3 batches: ELBO samples, lower_error, batch sizes fresh and resumed; resume suite: one-go run with saved eigensystem, then a resumed run from EVERY split point 1..k-1, nifty.re in signal and data space and nifty.cl, k < all and k = all eigenvalues: eigsh batch sizes against the model's schedule, exactly; distinct = (kind, n, order, breakdown) resp. (kind, k, batches) resp. (impl, space, k, batches, split, observed sizes); options: compute_all x verbose x n_eigenvalues below/at/above the relevant dofs x n_batches in nifty.re and nifty.cl: number of eigenvalues that entered (saved eigensystem) or ValueError against effective_n; pure-SLQ ELBO (n_eigenvalues = 0) on non-square and square models in both spaces with the default and an over-large order: the order handed to _slq_gauss_radau against clamp_order, exactly",
             "samples": [_js({k: v for k, v in c.items() if not k.startswith("_")}) for c in self.cases[:2]],
             "input_distribution": dist, "disagreements": len(bad), "exhaustive": False,
         })
@@ -707,8 +802,13 @@ class C34(C.Check):
         todo = [c for c in getattr(self, "bad_cases", [])]
         n_hints = len(todo)
         todo += [c for c in ctx.corpus() if c.get("kind") in ("slq", "elbo_full")]
-        todo += [c for c in getattr(self, "cases", []) if c.get("kind") not in ("resume", "slq_elbo")]
+        todo += [c for c in getattr(self, "cases", []) if c.get("kind") not in ("resume", "slq_elbo", "options")]
         n_res = 0
+        for c, o in getattr(self, "opt_obs", []):
+            n_res += len(o["rows"])
+            f = options_failure(c, o)
+            if f:
+                res.add_failing({"fn": "options", "class": f[0]}, f[1], _js(c))
         for c, o in getattr(self, "slq_obs", []):
             n_res += 1
             f = slq_elbo_failure(c, o)
